@@ -405,9 +405,12 @@ def check_file(res, data, pps, perf, kn):
 
     # a bank select that comes with a program change (same tick, same channel) is in front of it: a device applies the
     # bank to the next program change it receives
+    # (judged for the program changes the performance has; the default program 0 the writer adds to a channel without
+    # any is not a selection the performance makes)
+    explicit = set((int(p_.get("channel", 0)), int(p_["program"])) for pp in pps for p_ in pp.programs)
     for ti, tr in enumerate(smf["tracks"]):
         for i, ev in enumerate(tr):
-            if ev["type"] == "program_change":
+            if ev["type"] == "program_change" and (ev["channel"], ev["program"]) in explicit:
                 late = [e2 for e2 in tr[i + 1 :] if e2["tick"] == ev["tick"] and e2["type"] == "control_change" and e2["channel"] == ev["channel"] and e2["control"] in (0, 32)]
                 if late:
                     res.probe("bank_select_with_program")
